@@ -185,7 +185,7 @@ def storedXf (i : Inp) : List String :=
   match buildWithAttributes i.n prog with
   | none => ["attr-count-panic"]
   | some path =>
-    match (applyTransform (onPt i.m.apply) path).iterWithAttributes with
+    match (applyTransform (onPt i.m.apply) path).bind PathData.iterWithAttributes with
     | none => ["oob"]
     | some evs => faevs (evs.map (mapEvent fun q => (ofPt q.1, q.2)))
 
